@@ -1,0 +1,26 @@
+//go:build verif
+
+// Contracts for package mdicons, checked by /verif/govc. Comment-only file: with the
+// build tag off it does not exist for the compiler.
+
+package mdicons
+
+// normalize (C20), real-number reading: the first n operands are scaled by outSize/size; absolute operands are then
+// moved so that the (size x size) box with the given offset is centred on the origin: x operands by offset[0],
+// y operands by offset[1] (operand i of a pair list is an x when i is even; H has one x, V one y).
+//@ filelet k (/ outSize size)
+//@ filelet isX (ite (= n 1) (= op 72) true)
+//@ contract normalize
+//@   mode math
+//@   requires (and (<= 0 n) (<= n 6))
+//@   modifies *args
+//@   let A (old *args)
+//@   let N *args
+//@   ensures [C20.md.norm.rel] (=> relative (forall ((j!m Int)) (=> (and (<= 0 j!m) (< j!m n)) (= (select N j!m) (* (select A j!m) k)))))
+//@   ensures [C20.md.norm.abs.pairs] (=> (and (not relative) (not (= n 1))) (forall ((j!m Int)) (=> (and (<= 0 j!m) (< j!m n)) (= (select N j!m) (- (- (* (select A j!m) k) (/ outSize 2.0)) (select offset (mod j!m 2)))))))
+//@   ensures [C20.md.norm.abs.H] (=> (and (not relative) (= n 1) (= op 72)) (= (select N 0) (- (- (* (select A 0) k) (/ outSize 2.0)) (select offset 0))))
+//@   ensures [C20.md.norm.abs.V] (=> (and (not relative) (= n 1) (= op 86)) (= (select N 0) (- (- (* (select A 0) k) (/ outSize 2.0)) (select offset 1))))
+//@   ensures [C20.md.norm.frame] (forall ((j!m Int)) (=> (or (< j!m 0) (>= j!m n)) (= (select N j!m) (select A j!m))))
+//@   invariant 0 [md.norm.range] (and (<= 0 i) (<= i n))
+//@   invariant 0 [md.norm.done] (forall ((j!m Int)) (=> (and (<= 0 j!m) (< j!m i)) (= (select N j!m) (ite relative (* (select A j!m) k) (- (- (* (select A j!m) k) (/ outSize 2.0)) (ite (not (= n 1)) (select offset (mod j!m 2)) (ite (= op 72) (select offset 0) (ite (= op 86) (select offset 1) 0.0))))))))
+//@   invariant 0 [md.norm.todo] (forall ((j!m Int)) (=> (or (< j!m 0) (>= j!m i)) (= (select N j!m) (select A j!m))))
